@@ -1,6 +1,6 @@
 //go:build verif
 
-package tkn20
+package tkn20_test
 
 // C20, unit tokens: the policy language reserves exactly the lower-case words and / or / not; every other identifier
 // [A-Za-z0-9_]+ is a label or a value - also OR, Or, AND, Not, orx, xor, android, nota, and1, or_ ... Labels and values
@@ -12,12 +12,11 @@ package tkn20
 
 import (
 	"fmt"
-	"reflect"
+	"github.com/cloudflare/circl/abe/cpabe/tkn20"
+	"github.com/cloudflare/circl/internal/verifref/c20hooks"
 	"strings"
 	"testing"
 
-	"github.com/cloudflare/circl/abe/cpabe/tkn20/internal/dsl"
-	"github.com/cloudflare/circl/abe/cpabe/tkn20/internal/tkn"
 	"github.com/cloudflare/circl/internal/verifmc"
 	"github.com/cloudflare/circl/internal/verifref/abe"
 )
@@ -28,31 +27,29 @@ var c20TokenWords = []string{
 	"and1", "1and", "or_", "_or", "not_", "_not", "0r", "ORacle", "ANDroid", "NOTe", "andor", "notand",
 }
 
-// c20HandPolicy builds the policy of a formula WITHOUT the parser (numbering as the parser's: leaves left to right, gates in post order).
-func c20HandPolicy(nn *abe.Node) *Policy {
-	p := &Policy{}
+// c20HandPolicy builds the policy of a formula WITHOUT the parser (numbering as the parser's: leaves left to right, gates
+// in post order) through the in-package read-out; nil when that is not linked in.
+func c20HandPolicy(nn *abe.Node) *tkn20.Policy {
+	if c20hooks.PolicyBuild == nil {
+		return nil
+	}
+	var wires []c20hooks.Wire
+	var gates []c20hooks.Gate
 	L := abe.NumLeaves(nn)
 	var rec func(n *abe.Node) int
 	rec = func(n *abe.Node) int {
 		if n.Kind == abe.Leaf {
-			p.policy.Inputs = append(p.policy.Inputs, tkn.Wire{Label: n.Label, RawValue: n.Value, Value: tkn.HashStringToScalar(dsl.AttrHashKey, n.Value), Positive: !n.Neg})
-			return len(p.policy.Inputs) - 1
+			wires = append(wires, c20hooks.Wire{Label: n.Label, Value: n.Value, Positive: !n.Neg})
+			return len(wires) - 1
 		}
 		l := rec(n.L)
 		rr := rec(n.R)
-		class := tkn.Andgate
-		if n.Kind == abe.Or {
-			class = tkn.Orgate
-		}
-		out := L + len(p.policy.F.Gates)
-		p.policy.F.Gates = append(p.policy.F.Gates, tkn.Gate{Class: class, In0: l, In1: rr, Out: out})
+		out := L + len(gates)
+		gates = append(gates, c20hooks.Gate{And: n.Kind == abe.And, In0: l, In1: rr, Out: out})
 		return out
 	}
 	rec(nn)
-	if p.policy.F.Gates == nil {
-		p.policy.F.Gates = []tkn.Gate{}
-	}
-	return p
+	return c20hooks.PolicyBuild(wires, gates).(*tkn20.Policy)
 }
 
 // c20TokenFormulas: every token word as label, as value and as both, in every template position.
@@ -193,19 +190,27 @@ func TestVerifC20_tokens(t *testing.T) {
 		f := pick[i]
 		s0 := abe.Print(f, abe.StyleFull)
 		hand := c20HandPolicy(abe.NNF(f))
-		if p, err, pn := c20Parse(s0); err == nil && pn == "" {
-			if !reflect.DeepEqual(p.policy, hand.policy) || !p.Equal(hand) {
-				// not a demand of the property (only meaning is), but then the two are run separately
-				r.Count("parsed_policy_structurally_differs_from_hand_built", 1)
-				g := &c20Group{space: "tokens-parsed", pol: p, canon: s0, members: []c20Member{{f, s0}}, nLeaves: abe.NumLeaves(f)}
-				c20RunGroup(r, sys, g, i, c20Keys(r, sys, "tokens/"+s0, c20TokenAssignments(f)), c20CryptoOpts{legacy: true})
-			} else {
-				r.Count("parsed_policy_identical_to_hand_built", 1)
-			}
-		} // a refusal is reported by the policy-level part above
 		asgs := c20TokenAssignments(f)
-		if len(asgs) > 16 { // keep it a handful: the assignments that use a single non-"1" choice per label are first in order
+		if len(asgs) > 16 { // keep it a handful
 			asgs = asgs[:16]
+		}
+		p, err, pn := c20Parse(s0)
+		parsedOK := err == nil && pn == "" // a refusal is reported by the policy-level part above
+		switch {
+		case hand == nil && parsedOK:
+			r.Count("hand_built_policy_unavailable_(in-package_readout_not_linked)", 1)
+			g := &c20Group{space: "tokens-parsed", pol: p, canon: s0, members: []c20Member{{f, s0}}, nLeaves: abe.NumLeaves(f)}
+			c20RunGroup(r, sys, g, i, c20Keys(r, sys, "tokens/"+s0, asgs), c20CryptoOpts{legacy: i%2 == 0, samples: i == 2})
+			return
+		case hand == nil:
+			return
+		case parsedOK && c20SameStructure(p, hand) && p.Equal(hand):
+			r.Count("parsed_policy_identical_to_hand_built", 1)
+		case parsedOK:
+			// not a demand of the property (only meaning is), but then the two are run separately
+			r.Count("parsed_policy_structurally_differs_from_hand_built", 1)
+			g := &c20Group{space: "tokens-parsed", pol: p, canon: s0, members: []c20Member{{f, s0}}, nLeaves: abe.NumLeaves(f)}
+			c20RunGroup(r, sys, g, i, c20Keys(r, sys, "tokens/"+s0, asgs), c20CryptoOpts{legacy: true})
 		}
 		g := &c20Group{space: "tokens-handbuilt", pol: hand, canon: s0, members: []c20Member{{f, s0}}, nLeaves: abe.NumLeaves(f)}
 		c20RunGroup(r, sys, g, i, c20Keys(r, sys, "tokens/"+s0, asgs), c20CryptoOpts{legacy: i%2 == 0, samples: i == 2})
